@@ -772,6 +772,8 @@ class LibsModel:
             return out
         if ty == 'Structure':
             return AV(ty='PeriodicSite', deps=it.deps)
+        if ty == 'Series':
+            return it.only('idx', 'at', 'geo', 'mono', 'taint', 'col').w(ty='int', deps=it.deps)
         if ty == 'pairwise':
             el = self.iter_item(interp, st, it.of, node, stmt)
             return AV(ty='tuple', elts=[el.w(pair_pos=0), el.w(pair_pos=1)], pairwise_of=it.of)
